@@ -1,4 +1,5 @@
-"""C16 (thin) — lock discipline of the concurrent transaction wrapper."""
+"""C16 — lock discipline of the concurrent transaction wrapper (O), the merge queue under every bounded goroutine schedule (O2),
+two goroutines sharing one concurrent transaction under the happens-before race detector of the symbolic run (O3)."""
 STORES = ["data", "head", "system", "peer", "root"]
 OPS = ["Get", "Set", "Has", "Delete", "Iterator"]
 
@@ -9,14 +10,31 @@ def jobs(tier):
         for oi, o in enumerate(OPS):
             js.append({"id": f"O.lock.{s}.{o}", "func": "VerifH_C16_LockDiscipline", "conf": {"store": si, "op": oi},
                        "_obligation": "O", "_covers": ["accessed"]})
+    js.append({"id": "O3.shared-txn.two-goroutines", "func": "VerifH_C16_SharedTxn", "conf": {"preempt": 1 if tier == "quick" else 2},
+               "_obligation": "O3", "_covers": ["accessed"], "_schedule_replay": True})
     js.append({"id": "O.write-visible", "func": "VerifH_C16_WriteVisible", "conf": {}, "_obligation": "O", "_covers": ["accessed"]})
+    return js
+
+
+def mq_jobs(tier):
+    js = []
+    for n, pre in ([(2, 2), (3, 0), (3,1), (4,0)] if tier == "quick" else [(2, 3), (3, 2), (4, 0)]):
+        js.append({"id": f"O2.merge-queue.threads{n}.preempt{pre}", "func": "VerifH_C16_MergeQueue", "conf": {"threads": n, "preempt": pre},
+                   "_obligation": "O2", "_covers": ["all-threads-finished"], "_schedule_replay": True})
     return js
 
 
 PROPERTY = {
     "id": "C16",
-    "suites": [{"name": "datastore", "pkg": "internal/datastore", "files": ["zz_verif_txn.go"], "common": ["intrinsics", "kvmodel"], "jobs": jobs}],
-    "bounds": {"stores": STORES, "operations": OPS, "keys/values": "one symbolic byte each"},
-    "assumptions": ["sync.Mutex is modelled as ghost state (single-threaded execution): the check is the sufficient condition 'every root-transaction access happens with the wrapper mutex held', not an exploration of interleavings"],
-    "outside_claim": ["data races / lost effects under real interleavings (thread schedules are not explored by this technique)", "block and enc stores (they run through the same wrapped root transaction)", "Commit/Discard concurrent with other calls", "merge queue, replicator map, event bus goroutines"],
+    "suites": [{"name": "datastore", "pkg": "internal/datastore", "files": ["zz_verif_txn.go"], "common": ["intrinsics", "kvmodel"], "jobs": jobs},
+               {"name": "mergequeue", "pkg": "internal/db", "files": ["zz_verif_c16mq.go"], "common": ["intrinsics"], "jobs": mq_jobs}],
+    "bounds": {"stores": STORES, "operations": OPS, "keys/values": "one symbolic byte each",
+               "goroutine schedules (O2, O3)": "interpreted goroutines run one at a time; a switch happens where a goroutine blocks, ends or yields (vYield, Gosched, Sleep) and, up to the job's preemption budget (0-2 quick, up to 3 thorough), before a mutex acquire, after a release, at a channel operation and at a go statement; every such schedule is explored (each choice is a logged decision of the path)",
+               "O2 merge queue": "2 goroutines (2 preemptions), 3 (0 and 1), 4 (0); documents chosen by the solver among two",
+               "O3 shared transaction": "2 goroutines, 1 operation each (Set / Get / Has / Iterator+Next+Close) through any of 7 store accessors (data, head, system, peer, root, the store beneath the block store, the store beneath the key store), then a read-back; 1 preemption (thorough 2)"},
+    "assumptions": ["O: sync.Mutex is ghost state; the obligation is the sufficient condition 'every root-transaction access happens with the wrapper mutex held'",
+                    "O2/O3: sequentially consistent interleaving at synchronisation operations; happens-before edges from mutexes, channels (send->receive, close->receive, receive->send completion on unbuffered channels), WaitGroup, Once, atomics and go statements; the data-race detector watches every load, store and map operation executed by the interpreter (accesses made inside engine-side models of library functions are not watched: a race there is missed, none is invented)",
+                    "O3: the root transaction is not safe for concurrent use (kvmodel counts every operation in an unsynchronised field), as a badger transaction is not",
+                    "schedule-dependent counterexamples are replayed natively by repetition (random pauses at the yield points, go test -race for data races): the goroutine schedule cannot be forced natively"],
+    "outside_claim": ["weak-memory effects and preemption between two plain memory accesses (a data race is reported by the happens-before detector instead)", "more goroutines / preemptions than the bounds", "Commit/Discard concurrent with other calls", "the replicator map of net.Peer, the event bus goroutine, db.handleMessages as a whole (its merge goroutines run executeMerge: planner, transactions)", "requests, collection operations and index changes issued concurrently against a whole node"],
 }
